@@ -509,7 +509,13 @@ func (u *Unit) typeID(t types.Type) *Term {
 }
 
 func (u *Unit) ifaceFns() (ty, val *FuncDecl) {
-	return u.c.Func("iface_type", []*Sort{SRef}, SInt), u.c.Func("iface_val", []*Sort{SRef}, SRef)
+	ty, val = u.c.Func("iface_type", []*Sort{SRef}, SInt), u.c.Func("iface_val", []*Sort{SRef}, SRef)
+	if !u.ifaceNilDone {
+		// the nil interface has no dynamic type (type ids start at 1)
+		u.ifaceNilDone = true
+		u.assume(nil, u.c.Eq(u.c.App(ty, u.c.Nil()), u.c.Int(0)))
+	}
+	return ty, val
 }
 
 func (u *Unit) makeIface(st *State, pc *Term, x *SV, t types.Type) *Term {
